@@ -511,7 +511,8 @@ struct Engine {
 		switch (t.pick({4, 3, 3, 3})) { case 0: window = 1; src = &cache; break; case 1: window = 2; src = &qd; break; case 2: window = 2; src = &qp; break; default: window = 3; src = &pend; break; }
 		if (src->empty()) { src = &cache; window = 1; }
 		if (src->empty()) return;
-		int of = (*src)[t.below((uint32_t)src->size())];
+		// half of the picks go to the oldest query of the chosen window (the boundary of the server's memories)
+		int of = t.chance(1, 2) ? src->back() : (*src)[t.below((uint32_t)src->size())];
 		// is it (also) in the cache window?
 		if (window == 2 && std::find(cache.begin(), cache.end(), of) != cache.end()) window = 1;
 		const QRec o = R.q[of];   // copy: record() below grows R.q
